@@ -14,6 +14,23 @@ def signature(lines, upto, clause):
     return ""
 
 
+# Behaviour-preserving rewrites of the anchored code on which the full flow of this check was run (each built as mutated
+# object files in scratch and linked into a scratch harness; /repo untouched) and stayed silent: exit 0, no VIOLATION.
+# The patches are kept as documentation in corpus/C06/negative_controls/<name>.diff; the check does not apply them.
+NEGATIVE_CONTROLS = [
+    ("nc1_refactor_pcr", "ProcessCheckResult: acknowledgement rule extracted into a lambda, locals renamed, independent statements reordered, comment-removal flag as one expression"),
+    ("nc2_message_texts", "other log / status / exception texts and another exception type (ScriptError) in API action, external commands, cluster handler, Checkable — "
+                          "alarmed first: the harness caught std::invalid_argument only and aborted; it now treats any std::exception as 'refused' and any 2xx as 'accepted'"),
+    ("nc3_iteration_order", "RemoveAckComments and the comment-expiry timer walk the comments newest-first via a sorted vector; the two acknowledgement attributes are set in the other order"),
+    ("nc4_guard_spellings", "GetAcknowledgement with early returns; API action tests OK/Up before the expiry and spells it !(t > now); cluster handler if/else; "
+                            "ClearAcknowledgement returns early when nothing is set; RemoveAckComments with one combined condition"),
+    ("nc5_layout_and_names", "25-line comment block on top of all six anchored files (every line number moves), added braces, static l_CommentsExpireTimer renamed, flag parsing respelled "
+                             "(the check reads no source text and uses no private-member access, so nothing can go stale)"),
+    ("nc6_signal_order_handled", "AcknowledgeProblem / ClearAcknowledgement record the change time and fire their signal in another order; GetHandled tests IsAcknowledged() before "
+                                 "IsInDowntime(); GetProblem via locals"),
+]
+
+
 class C06(Check):
     prop = "C06"
     required_theorems = ["normal_cleared_by_state_change", "sticky_cleared_only_by_recovery", "unchanged_state_keeps_ack",
@@ -37,7 +54,9 @@ class C06(Check):
                   "predicate is evaluated on the implementation's own trace")
     level_note = ("Trusted: Lean kernel (+ propext, Classical.choice, Quot.sound), sampled correspondence of the hand-written model, harness/driver. "
                   "Not modelled: reachability, flapping, pausing, the zone test of the cluster handlers (C13), the suppressed-notification timer (C02), "
-                  "a downtime's own life cycle (C05; it enters as the bit 'in effect'); an HTTP request is modelled as the API action it reaches.")
+                  "a downtime's own life cycle (C05; it enters as the bit 'in effect'); an HTTP request is modelled as the API action it reaches."
+                  " Compared are only accepted/refused (any 2xx / any exception), counts of signals (not their order), sorted comment sets — see "
+                  "NEGATIVE_CONTROLS in checks/c06.py for the six harmless rewrites the check stays silent on.")
     trusted_base = [
         "modelled, not verified: Checkable::GetAcknowledgement/AcknowledgeProblem/ClearAcknowledgement/GetHandled, the acknowledgement and "
         "notification-suppression lines of ProcessCheckResult, RemoveAckComments, the acknowledgement entry points of ApiActions, "
